@@ -5,6 +5,7 @@ package main
 // independently: math/big for integers, encoding/base64, time.Parse.
 
 import (
+	"bytes"
 	"encoding/base64"
 	"encoding/json"
 	"flag"
@@ -79,6 +80,9 @@ type jDec struct {
 	Same   bool   `json:"same"`
 	TypeOK bool   `json:"typeok"`
 	Both   bool   `json:"both"`
+	// ReOK: the accepted resource, marshaled again, carries the attribute as the same JSON value
+	// (the same number, the same string, the same instant, null for null); true when there is no resource
+	ReOK bool `json:"remarshal_ok"`
 }
 
 type decEvent struct {
@@ -194,6 +198,7 @@ func runDecodeCase(c decCase) decEvent {
 		v   any
 		err error
 	)
+	var back jsonapi.Resource
 	p, _ := catch(func() {
 		if c.Via == "attr" {
 			v, err = attr.UnmarshalToType([]byte(c.Lit.Text))
@@ -213,6 +218,7 @@ func runDecodeCase(c decCase) decEvent {
 		res, err = jsonapi.UnmarshalResource([]byte(payload), schema)
 		if err == nil {
 			v = res.Get("v")
+			back = res
 		} else if res != nil {
 			v = res
 		}
@@ -225,7 +231,51 @@ func runDecodeCase(c decCase) decEvent {
 	default:
 		ev.R = observeDecoded(c.Kind, c.Null, c.Lit, v)
 	}
+	ev.R.ReOK = true
+	if ev.R.Out == "accept" && back != nil {
+		catch(func() {
+			var ske struct {
+				Attributes map[string]json.RawMessage `json:"attributes"`
+			}
+			out := jsonapi.MarshalResource(back, "", []string{"v"}, nil)
+			ev.R.ReOK = json.Unmarshal(out, &ske) == nil && sameJSONValue(json.RawMessage(c.Lit.Text), ske.Attributes["v"])
+		})
+	}
 	return ev
+}
+
+// sameJSONValue: the same number (whatever its spelling), the same string - or, for two strings that
+// are both RFC 3339 times, the same instant -, the same literal.
+func sameJSONValue(a, b json.RawMessage) bool {
+	var x, y any
+	da, db := json.NewDecoder(bytes.NewReader(a)), json.NewDecoder(bytes.NewReader(b))
+	da.UseNumber()
+	db.UseNumber()
+	if da.Decode(&x) != nil || db.Decode(&y) != nil {
+		return false
+	}
+	switch xv := x.(type) {
+	case json.Number:
+		yv, ok := y.(json.Number)
+		if !ok {
+			return false
+		}
+		rx, ok1 := new(big.Rat).SetString(xv.String())
+		ry, ok2 := new(big.Rat).SetString(yv.String())
+		return ok1 && ok2 && rx.Cmp(ry) == 0
+	case string:
+		yv, ok := y.(string)
+		if !ok {
+			return false
+		}
+		if xv == yv {
+			return true
+		}
+		tx, e1 := time.Parse(time.RFC3339Nano, xv)
+		ty, e2 := time.Parse(time.RFC3339Nano, yv)
+		return e1 == nil && e2 == nil && tx.Equal(ty)
+	}
+	return reflect.DeepEqual(x, y)
 }
 
 // classifyString: the literal class of a JSON string, by independent decoders.
